@@ -18,6 +18,8 @@ CONSTANTS MaxBody,      \* 65536
           MaxTotal,     \* bound on written units
           MaxResp,      \* largest response body
           MaxPolls,     \* bound on empty polls (timer arm) so that the model is finite
+          MaxRetries,   \* roundTrip gives up after this many non-200 answers to one request (10)
+          MaxRefusals,  \* bound on non-200 answers in a behaviour (0 = the property's premise: the server answers 200)
           TrackHist     \* record environment actions (generation configs only)
 
 VARIABLES wq,        \* write channel: sequence of [lo, hi)
@@ -34,8 +36,11 @@ VARIABLES wq,        \* write channel: sequence of [lo, hi)
           got,       \* units returned by Read
           inflight,  \* requests in flight (0 or 1)
           polls,
+          retries,   \* non-200 answers to the request in flight so far (roundTrip's loop counter)
+          acc,       \* units carried by requests the server ACCEPTED (answered 200)
+          refusals,
           hist       \* environment actions (generation)
-vars == <<wq, rq, left, snd, ws, body, resp, closing, written, sent, rtotal, got, inflight, polls, hist>>
+vars == <<wq, rq, left, snd, ws, body, resp, closing, written, sent, rtotal, got, inflight, polls, retries, acc, refusals, hist>>
 
 H(a) == IF TrackHist THEN Append(hist, a) ELSE hist
 Size(s) == IF s = <<>> THEN 0 ELSE LET f[i \in 0..Len(s)] == IF i = 0 THEN 0 ELSE f[i - 1] + (s[i][2] - s[i][1]) IN f[Len(s)]
@@ -44,33 +49,34 @@ Contig(s) == \A i \in 1..(Len(s) - 1) : s[i][2] = s[i + 1][1]
 Init == /\ wq = <<>> /\ rq = <<>> /\ left = <<>> /\ snd = <<>> /\ ws = "select"
         /\ body = <<0, 0>> /\ resp = <<0, 0>> /\ closing = FALSE
         /\ written = 0 /\ sent = 0 /\ rtotal = 0 /\ got = 0 /\ inflight = 0 /\ polls = 0 /\ hist = <<>>
+        /\ retries = 0 /\ acc = 0 /\ refusals = 0
 
 ---- \* application
 AppWrite(n) == /\ ~closing /\ ws # "exited" /\ Len(wq) < ChanCap /\ written + n <= MaxTotal
                /\ wq' = Append(wq, <<written, written + n>>) /\ written' = written + n
                /\ hist' = H([a |-> "write", n |-> n])
-               /\ UNCHANGED <<rq, left, snd, ws, body, resp, closing, sent, rtotal, got, inflight, polls>>
+               /\ UNCHANGED <<rq, left, snd, ws, body, resp, closing, sent, rtotal, got, inflight, polls, retries, acc, refusals>>
 AppRead == /\ rq # <<>> /\ got' = got + (Head(rq)[2] - Head(rq)[1]) /\ Head(rq)[1] = got /\ rq' = Tail(rq)
            /\ hist' = H([a |-> "read", n |-> 0])
-           /\ UNCHANGED <<wq, left, snd, ws, body, resp, closing, written, sent, rtotal, inflight, polls>>
+           /\ UNCHANGED <<wq, left, snd, ws, body, resp, closing, written, sent, rtotal, inflight, polls, retries, acc, refusals>>
 AppClose == /\ ~closing /\ closing' = TRUE /\ hist' = H([a |-> "close", n |-> 0])
-            /\ UNCHANGED <<wq, rq, left, snd, ws, body, resp, written, sent, rtotal, got, inflight, polls>>
+            /\ UNCHANGED <<wq, rq, left, snd, ws, body, resp, written, sent, rtotal, got, inflight, polls, retries, acc, refusals>>
 
 ---- \* worker
 W(newws) == ws' = newws
 \* select: any ready arm may be taken (Go picks at random among ready ones)
 SelTimer == /\ ws = "select" /\ polls < MaxPolls /\ polls' = polls + 1 /\ snd' = left /\ W("coalesce")
-            /\ UNCHANGED <<wq, rq, left, body, resp, closing, written, sent, rtotal, got, inflight, hist>>
+            /\ UNCHANGED <<wq, rq, left, body, resp, closing, written, sent, rtotal, got, inflight, hist, retries, acc, refusals>>
 SelWrite == /\ ws = "select" /\ wq # <<>> /\ snd' = left \o <<Head(wq)>> /\ wq' = Tail(wq) /\ W("coalesce")
-            /\ UNCHANGED <<rq, left, body, resp, closing, written, sent, rtotal, got, inflight, polls, hist>>
+            /\ UNCHANGED <<rq, left, body, resp, closing, written, sent, rtotal, got, inflight, polls, hist, retries, acc, refusals>>
 SelClose == /\ ws = "select" /\ closing /\ W("exited")
-            /\ UNCHANGED <<wq, rq, left, snd, body, resp, closing, written, sent, rtotal, got, inflight, polls, hist>>
+            /\ UNCHANGED <<wq, rq, left, snd, body, resp, closing, written, sent, rtotal, got, inflight, polls, hist, retries, acc, refusals>>
 \* for len(workerWrChan) > 0 && wrSz < maxPayloadLength
 Coalesce == /\ ws = "coalesce"
             /\ IF wq # <<>> /\ Size(snd) < MaxBody
                THEN snd' = Append(snd, Head(wq)) /\ wq' = Tail(wq) /\ W("coalesce")
                ELSE UNCHANGED <<snd, wq>> /\ W("cap")
-            /\ UNCHANGED <<rq, left, body, resp, closing, written, sent, rtotal, got, inflight, polls, hist>>
+            /\ UNCHANGED <<rq, left, body, resp, closing, written, sent, rtotal, got, inflight, polls, hist, retries, acc, refusals>>
 \* cap the body at MaxBody, stash the rest
 Cap == /\ ws = "cap"
        /\ LET lo == IF snd = <<>> THEN sent ELSE snd[1][1]
@@ -79,16 +85,26 @@ Cap == /\ ws = "cap"
             /\ left' = IF Size(snd) > MaxBody THEN <<<<lo + n, lo + Size(snd)>>>> ELSE <<>>
             /\ sent' = sent + n
        /\ inflight' = inflight + 1 /\ W("wait") /\ snd' = <<>>
-       /\ UNCHANGED <<wq, rq, resp, closing, written, rtotal, got, polls, hist>>
+       /\ UNCHANGED <<wq, rq, resp, closing, written, rtotal, got, polls, hist, retries, acc, refusals>>
 \* the server answers 200 with k units
 Respond(k) == /\ ws = "wait" /\ resp' = <<rtotal, rtotal + k>> /\ rtotal' = rtotal + k /\ inflight' = inflight - 1
               /\ W(IF k > 0 THEN "enqueue" ELSE "select")
               /\ hist' = H([a |-> "respond", n |-> k])
-              /\ UNCHANGED <<wq, rq, left, snd, body, closing, written, sent, got, polls>>
+              /\ acc' = body[2] /\ retries' = 0
+              /\ UNCHANGED <<wq, rq, left, snd, body, closing, written, sent, got, polls, refusals>>
+\* the server (or the front) answers something else than 200: roundTrip sleeps retryDelay and posts THE SAME body again, up to
+\* MaxRetries times, then the worker gives up and the connection is closed.  Whatever body the refusal carries is discarded.
+Refuse == /\ ws = "wait" /\ refusals < MaxRefusals /\ refusals' = refusals + 1 /\ inflight' = inflight - 1
+          /\ retries' = retries + 1
+          /\ W(IF retries + 1 >= MaxRetries THEN "exited" ELSE "retry")
+          /\ hist' = H([a |-> "refuse", n |-> 0])
+          /\ UNCHANGED <<wq, rq, left, snd, body, resp, closing, written, sent, rtotal, got, polls, acc>>
+Retry == /\ ws = "retry" /\ inflight' = inflight + 1 /\ W("wait")
+         /\ UNCHANGED <<wq, rq, left, snd, body, resp, closing, written, sent, rtotal, got, polls, retries, acc, refusals, hist>>
 Enqueue == /\ ws = "enqueue" /\ Len(rq) < ChanCap /\ rq' = Append(rq, resp) /\ W("select")
-           /\ UNCHANGED <<wq, left, snd, body, resp, closing, written, sent, rtotal, got, inflight, polls, hist>>
-Worker == SelTimer \/ SelWrite \/ SelClose \/ Coalesce \/ Cap \/ Enqueue
-Next == Worker \/ AppRead \/ AppClose \/ (\E n \in 1..MaxWrite : AppWrite(n)) \/ (\E k \in 0..MaxResp : Respond(k))
+           /\ UNCHANGED <<wq, left, snd, body, resp, closing, written, sent, rtotal, got, inflight, polls, hist, retries, acc, refusals>>
+Worker == SelTimer \/ SelWrite \/ SelClose \/ Coalesce \/ Cap \/ Enqueue \/ Retry
+Next == Worker \/ AppRead \/ AppClose \/ (\E n \in 1..MaxWrite : AppWrite(n)) \/ (\E k \in 0..MaxResp : Respond(k)) \/ Refuse
 Spec == Init /\ [][Next]_vars /\ WF_vars(Worker) /\ WF_vars(\E k \in 0..MaxResp : Respond(k)) /\ WF_vars(AppRead)
 
 ---- \* properties (C16)
@@ -97,6 +113,13 @@ BodiesAreNextRange == /\ Contig(snd) /\ (snd # <<>> => snd[1][1] = sent)
                       /\ body[2] <= written /\ body[2] = sent
                       /\ (left # <<>> => left[1][1] = sent)
 BodyBounded == body[2] - body[1] <= MaxBody
+\* the bodies the server ACCEPTED, in order, are the written stream: the request in flight (first attempt or retry) carries
+\* exactly the range after the last accepted one, and nothing is in flight or accepted twice
+AcceptedAreStream == /\ acc <= sent /\ (ws \in {"wait", "retry"} => body[1] = acc /\ body[2] = sent)
+                     /\ (ws \in {"select", "coalesce", "cap", "enqueue"} => acc = sent)
+\* a worker that gave up (MaxRetries refusals of one request) has lost nothing silently: the connection is dead (Read and
+\* Write fail from then on), the unaccepted range is exactly [acc, written)
+GaveUpOnlyAfterMaxRetries == (ws = "exited" /\ ~closing) => retries >= MaxRetries
 AtMostOneInFlight == inflight <= 1
 \* Read returns the response bodies in order
 ReadsInOrder == /\ Contig(rq) /\ (rq # <<>> => rq[1][1] = got) /\ got <= rtotal
